@@ -221,6 +221,18 @@ func SynGrammar(o SynOpts) *rapid.Generator[*gr.Grammar] {
 			b.terms = append(b.terms, o.Terms...)
 			nT = 0
 		}
+		if nT >= 3 && rapid.IntRange(0, 5).Draw(t, "concatNames") == 0 {
+			// terminal names one of which is the concatenation of two others
+			trio := rapid.SampledFrom([][]string{{"x", "=", "x="}, {"=", "=", "=="}, {"x", "x", "xx"}, {"if", "x", "ifx"}}).Draw(t, "trio")
+			seenT := map[string]bool{}
+			for _, n := range trio {
+				if !seenT[n] {
+					seenT[n] = true
+					b.terms = append(b.terms, gr.Sym{Kind: gr.SLit, Name: n})
+				}
+			}
+			nT -= len(b.terms)
+		}
 		for i := 0; i < nT; i++ {
 			if rapid.IntRange(0, 2).Draw(t, "termKind") == 0 {
 				l := rapid.SampledFrom(litNames).Draw(t, "litName")
